@@ -212,6 +212,15 @@ pub enum Op {
     Stats,
     /// Store::sync()
     Sync,
+    /// event_is_deleted (a reader op of the concurrent mode)
+    IsDeleted(B32),
+    /// naddr_is_deleted_asof (a reader op of the concurrent mode)
+    AddrDeleted(AddrKey),
+    /// find_replaceable_event / find_parameterized_replaceable_event (a reader op of the concurrent mode)
+    Holder(AddrKey),
+    /// get_event_by_offset at the offset the base history acknowledged for this id (a reader op of
+    /// the concurrent mode): the bytes stored there, whatever has happened to the event since
+    GetOff(B32),
     /// outside interference that must not matter: delete (part of) the backup a rebuild left
     /// behind (0 = event.map.bak, 1 = lmdb.bak, 2 = both), or (3) a plain file put in the place of
     /// lmdb.bak, which the next rebuild cannot clear away
@@ -263,6 +272,10 @@ impl Op {
             Op::Has(_) => "has",
             Op::Stats => "stats",
             Op::Sync => "sync",
+            Op::IsDeleted(_) => "is_deleted",
+            Op::AddrDeleted(_) => "addr_deleted",
+            Op::Holder(_) => "holder",
+            Op::GetOff(_) => "get_off",
             Op::RemoveBackup(_) => "remove_backup",
             Op::Crash(_) => "crash",
             Op::Fail(_) => "fail",
@@ -562,6 +575,10 @@ impl Op {
             Op::Has(id) => format!("has id={}", hex(id)),
             Op::Stats => "stats".into(),
             Op::Sync => "sync".into(),
+            Op::IsDeleted(id) => format!("is_deleted id={}", hex(id)),
+            Op::AddrDeleted(a) => format!("addr_deleted kind={} pk={} d={}", a.kind, hex(&a.pk), enc_bytes(&a.d)),
+            Op::Holder(a) => format!("holder kind={} pk={} d={}", a.kind, hex(&a.pk), enc_bytes(&a.d)),
+            Op::GetOff(id) => format!("get_off id={}", hex(id)),
             Op::RemoveBackup(w) => format!("remove_backup which={w}"),
             Op::Crash(k) => format!("crash k={k}"),
             Op::Fail(k) => format!("fail k={k}"),
@@ -599,6 +616,10 @@ impl Op {
             "has" => Op::Has(unhex32(kv.get("id")?)?),
             "stats" => Op::Stats,
             "sync" => Op::Sync,
+            "is_deleted" => Op::IsDeleted(unhex32(kv.get("id")?)?),
+            "addr_deleted" => Op::AddrDeleted(AddrKey { kind: kv.get("kind")?.parse().map_err(e)?, pk: unhex32(kv.get("pk")?)?, d: dec_bytes(kv.get("d")?)? }),
+            "holder" => Op::Holder(AddrKey { kind: kv.get("kind")?.parse().map_err(e)?, pk: unhex32(kv.get("pk")?)?, d: dec_bytes(kv.get("d")?)? }),
+            "get_off" => Op::GetOff(unhex32(kv.get("id")?)?),
             "remove_backup" => Op::RemoveBackup(kv.get("which")?.parse().map_err(e)?),
             "crash" => Op::Crash(kv.get("k")?.parse().map_err(e)?),
             "fail" => Op::Fail(kv.get("k")?.parse().map_err(e)?),
